@@ -15,43 +15,7 @@ PU = 'vermouth/parser_utils.py'
 CONTEXT_OF = {'moleculetype': {'block'}, 'link': {'link', 'molmeta'}, 'modification': {'modification'}}
 
 
-def method(cls, name):
-    for item in cls.body:
-        if isinstance(item, ast.FunctionDef) and item.name == name:
-            return item
-    return None
-
-
-def raise_conditions(fn):
-    return stmts_with_env(fn, lambda s: isinstance(s, ast.Raise))
-
-
-def guarded_by_raise(ck, module, fn, sink_pred, atom_pred, what, key, rule='MPT-reject'):
-    """Every sink is unreachable when the faulty condition (a raise whose
-    reaching condition mentions an atom accepted by atom_pred) holds."""
-    sinks = stmts_with_env(fn, sink_pred)
-    ck.need(sinks, '{}: registration sink for "{}" not found in {}'.format(module.rel, what, fn.name))
-    raises = [(st, c) for st, c, _e in raise_conditions(fn)
-              if any(atom_pred(a) for a in flow.atoms_of(c))]
-    ck.analysed(module, fn)
-    for st, cond, _env in sinks:
-        ok = False
-        why = 'no raise with the faulty condition found'
-        for rst, rcond in raises:
-            good, cex, rows = flow.implies(cond, flow.NOT(rcond))
-            if good:
-                ok = True
-                why = 'raise at line {} under {}'.format(rst.lineno, flow.show(rcond)[:140])
-                break
-            why = 'sink reachable together with the faulty condition {}'.format(flow.show(rcond)[:120])
-        ck.ob(rule, module.loc(st), ok, '{}: `{}` is dominated by the rejection ({})'.format(what, u(st)[:70], why), key=key)
-
-
-def has_atom(*frags):
-    def pred(key):
-        text = ' '.join(str(k) for k in key)
-        return all(f in text for f in frags)
-    return pred
+from .common import method, raise_conditions, guarded_by_raise, has_atom
 
 
 def run(ck):
